@@ -623,6 +623,7 @@ package yqlib
 //@   requires validCtx(context) && expressionNode != nil && expressionNode.Operation != nil && implies(expressionNode.Operation.Preferences != nil, istype(expressionNode.Operation.Preferences, assignPreferences))
 //@   modifies anynode.Content, anynode.Value, anynode.Kind, anynode.Tag, anynode.Alias, anynode.Anchor, anynode.Style, anynode.FootComment, anynode.HeadComment, anynode.LineComment
 //@   ensures @returns-input-context implies(result1 == nil, result0 == context)
+//@   at UpdateAttributesFrom: assert @under-n-only-null-targets-are-written {C04,C02} !arg2.OnlyWriteNull || candidate.Tag == "!!null"
 //@   loop 1:
 //@     invariant nodeList(lhs.MatchingNodes)
 
@@ -1212,14 +1213,16 @@ package yqlib
 //@   nosafety
 //@   requires nodeList(newContent.MatchingNodes)
 //@   assume @children-non-nil key != nil && value != nil
+//@   assume @an-index-of-the-map 0 <= startIndex && startIndex <= 72057594037927936
 //@   modifies anynode.Anchor, anynode.Kind, anynode.Style, anynode.Tag, anynode.Value, anynode.Alias, anynode.Content, newContent.MatchingNodes.items
 //@   ensures @anchors-only-removed {C13} anchorsOnlyRemoved()
 //@   ensures @value-is-exploded-whatever-happens-to-it {C13} implies(result == nil, value.Anchor == "")
+//@   at return: assert @an-entry-is-dropped-only-for-a-later-explicit-key {C13,C06} implies(result == nil, (len(newContent.MatchingNodes) > 0 && nodeAt(newContent.MatchingNodes, len(newContent.MatchingNodes) - 1) == value) || exists(k, 0, len(newContent.MatchingNodes), nodeAt(newContent.MatchingNodes, k) == value) || exists(j, startIndex + 2, len(node.Content), node.Content[j].Value == key.Value && node.Content[j].Alias == nil))
 //@   ensures implies(result == nil, nodeList(newContent.MatchingNodes))
 //@   loop 1:
 //@     invariant anchorsOnlyRemoved() && value.Anchor == "" && nodeList(newContent.MatchingNodes)
 //@   loop 2:
-//@     invariant anchorsOnlyRemoved() && value.Anchor == "" && nodeList(newContent.MatchingNodes)
+//@     invariant anchorsOnlyRemoved() && value.Anchor == "" && nodeList(newContent.MatchingNodes) && index >= startIndex + 2
 
 // ---------------------------------------------------------------------------------------------
 // candidate_node_yaml.go: conversion between yaml.v3 nodes and candidate nodes (C05)
@@ -1468,8 +1471,9 @@ package yqlib
 //@ pred relHolds(prefs, c) = (prefs.OrEqual && c == 0) || ite(prefs.Greater, c > 0, c < 0)
 
 //@ func compareDateTime
-//@   props C11
+//@   props C15 C11
 //@   requires lhs != nil && rhs != nil
+//@   ensures @instants-compare-by-instant {C15} implies(result1 == nil, result0 == relHolds(prefs, sign(timeOf(layout, lhs.Value) - timeOf(layout, rhs.Value))))
 
 //@ func compareScalars
 //@   props C15 C11
@@ -1526,3 +1530,21 @@ package yqlib
 //@   ensures @a-container-that-owns-its-children {C03,C16} ownsItsChildren(result)
 //@   loop 1:
 //@     invariant 0 <= index && len(filteredContent) % 2 == 0 && forall(i, 0, len(filteredContent), filteredContent[i] != nil) && original.Content == old(original.Content) && forall(i, 0, len(original.Content), original.Content[i] != nil) && len(original.Content) % 2 == 0
+
+// operator_value.go: a literal is copied every time it is used (C18: the parsed tree is not handed out)
+//@ func valueOperator
+//@   props C18 C01 C11
+//@   requires validCtx(context) && expressionNode != nil && expressionNode.Operation != nil && expressionNode.Operation.CandidateNode != nil
+//@   ensures @literals-are-copied-on-use {C18} implies(result1 == nil, result0.MatchingNodes != nil && forall(i, 0, len(result0.MatchingNodes), isNode(listAt(result0.MatchingNodes, i)) && fresh(nodeAt(result0.MatchingNodes, i))))
+//@   ensures @one-copy-per-input {C01} implies(result1 == nil && len(context.MatchingNodes) > 0, len(result0.MatchingNodes) == len(context.MatchingNodes))
+//@   loop 1:
+//@     invariant @position (el == nil && iter() == len(context.MatchingNodes)) || (el != nil && elList(el) == context.MatchingNodes && elIdx(el) == iter())
+//@     invariant fresh(results) && len(results) == iter() && forall(i, 0, len(results), isNode(listAt(results, i)) && fresh(nodeAt(results, i))) && nodeList(context.MatchingNodes)
+
+// operator_traverse_path.go: a merged-in map is read with the preferences of the read (C13)
+//@ func traverseMergeAnchor
+//@   props C13
+//@   nosafety
+//@   noframe
+//@   at doTraverseMap: assert @merged-maps-are-read-like-the-map-itself {C13} arg0 == newMatches && arg1 == value.Alias && arg2 == wantedKey && arg3 == prefs && arg4 == splat
+//@   at traverseMergeAnchor: assert @merge-lists-entry-by-entry {C13} arg0 == newMatches && arg2 == wantedKey && arg3 == prefs && arg4 == splat
